@@ -90,6 +90,13 @@ class Closure:
         self.live_env = live_env
 
 
+class _Partial:
+    """functools.partial over an interpreted callable"""
+
+    def __init__(self, fn, args, kwargs):
+        self.fn, self.args, self.kwargs = fn, tuple(args), dict(kwargs)
+
+
 class Obj:
     """An instance of a repo class with slots (FermionicOperator)."""
 
@@ -367,7 +374,8 @@ class Evaluator:
                 return self._modconsts[key]
             if e.id in _BUILTIN_TYPES:
                 return _BUILTIN_TYPES[e.id]
-            if e.id in ("len", "min", "max", "abs", "sorted", "sum", "any", "all", "repr", "id", "divmod", "round", "set", "frozenset"):
+            if e.id in ("len", "min", "max", "abs", "sorted", "sum", "any", "all", "repr", "id", "divmod", "round", "set", "frozenset",
+                        "enumerate", "zip", "reversed", "range", "iter", "next", "map", "filter", "isinstance", "callable", "hash"):
                 import builtins as _b
 
                 return getattr(_b, e.id)
@@ -479,6 +487,10 @@ class Evaluator:
             for kv in self.comp(ast.Tuple(elts=[e.key, e.value], ctx=ast.Load()), e.generators, dict(env), fi):
                 out[kv[0]] = kv[1]
             return out
+        if isinstance(e, ast.NamedExpr):
+            v = self.expr(e.value, env, fi)
+            self.assign(e.target, v, env, fi)
+            return v
         if isinstance(e, ast.Lambda):
             return Closure(e, dict(env), fi, env)
         if isinstance(e, ast.JoinedStr):
@@ -575,6 +587,23 @@ class Evaluator:
             return getattr(v, attr)  # e.g. itertools.chain.from_iterable
         import types as _types
 
+        if isinstance(v, _types.ModuleType) and v.__name__ == "operator" and attr in ("attrgetter", "methodcaller"):
+            if attr == "attrgetter":
+                def attrgetter(*names, _fi=fi):
+                    def get(o):
+                        vals = []
+                        for nm in names:
+                            cur = o
+                            for part in nm.split("."):
+                                cur = self.getattr(cur, part, _fi)
+                            vals.append(cur)
+                        return vals[0] if len(vals) == 1 else tuple(vals)
+                    return get
+                return attrgetter
+
+            def methodcaller(name, *a, _fi=fi, **k):
+                return lambda o: self.apply(self.getattr(o, name, _fi), list(a), k, _fi)
+            return methodcaller
         if isinstance(v, _types.ModuleType) and v.__name__ in ("math", "operator", "functools") and not attr.startswith("_"):
             return getattr(v, attr)
         if v is None or isinstance(v, (int, float, bool, str, tuple, list, dict, set, frozenset)):
@@ -631,7 +660,10 @@ class Evaluator:
             if n == "range":
                 return range(*args)
             if n == "zip":
-                return list(zip(*args))
+                return list(zip(*args, **({"strict": kwargs["strict"]} if "strict" in kwargs else {})))
+            if n == "filter":
+                f0 = args[0]
+                return [x for x in args[1] if (self.truth(x) if f0 is None else self.truth(self.apply(f0, [x], {}, fi)))]
             if n == "hash":
                 if any(isinstance(a, Obj) for a in args):
                     raise TypeError("hash of a modelled object")  # the repo's classes either disable or do not define __hash__
@@ -671,6 +703,8 @@ class Evaluator:
                     raise
             if n == "map":
                 f = args[0]
+                if len(args) > 2:
+                    return [self.apply(f, list(xs), {}, fi) for xs in zip(*args[1:])]
                 return [self.apply(f, [x], {}, fi) for x in args[1]]
         # super().m(...) / super(C, obj).m(...)
         if isinstance(e.func, ast.Attribute) and isinstance(e.func.value, ast.Call) and isinstance(e.func.value.func, ast.Name) \
@@ -716,9 +750,24 @@ class Evaluator:
             return o
         if isinstance(f, Closure):
             return self.call_closure(f, args, kwargs)
+        if isinstance(f, _Partial):
+            return self.apply(f.fn, list(f.args) + list(args), dict(f.kwargs, **kwargs), fi)
         if callable(f) and not isinstance(f, (ClassInfo, FuncInfo)):
+            import functools as _ft
+
+            if f is _ft.partial:
+                return _Partial(args[0], args[1:], kwargs)
+            # a real python callable (itertools / functools / operator / builtins) may call back into interpreted functions
+            if getattr(f, "__module__", None) in ("itertools", "functools", "_functools", "operator", "_operator", "builtins"):
+                wrap = lambda v: (lambda *a, **k: self.apply(v, list(a), k, fi)) if self._is_interpreted_callable(v) else v  # noqa: E731
+                return f(*[wrap(a) for a in args], **{k: wrap(v) for k, v in kwargs.items()})
             return f(*args, **kwargs)
         raise Unsupported(f"call of {f!r} in {fi.fq}")
+
+    def _is_interpreted_callable(self, v):
+        from .loader import ClassInfo, FuncInfo
+
+        return isinstance(v, (Closure, FuncInfo, _Partial)) or (isinstance(v, tuple) and len(v) == 3 and v[0] == "bound")
 
     def _is_generic(self, f):
         return any("singledispatch" in src(d) for d in f.node.decorator_list)
